@@ -178,7 +178,7 @@ func (t *trigger) ForceEpochStart(round uint64) {
 
 		return
 	}
-	if t.nextEpochStartRound-t.currEpochStartRound < t.minRoundsBetweenEpochs {
+	if t.nextEpochStartRound < t.currEpochStartRound+t.minRoundsBetweenEpochs {
 		t.nextEpochStartRound = t.currEpochStartRound + t.minRoundsBetweenEpochs
 		log.Debug("can not force epoch start on provided round",
 			"provided round", round, "computed round", t.nextEpochStartRound)
